@@ -284,6 +284,12 @@ impl ParseSess {
         self.raw_psess.dcx().has_errors().is_some()
     }
 
+    /// Called when the parse of a file begins: whether its errors may be forgiven is a question
+    /// about this file, not about an ignored file that happened to be parsed earlier.
+    pub(super) fn start_file(&self) {
+        self.can_reset_errors.store(false, Ordering::Release);
+    }
+
     pub(super) fn reset_errors(&self) {
         self.raw_psess.dcx().reset_err_count();
         // The errors of an ignored file have been forgiven: what a later file reports is its
